@@ -458,9 +458,9 @@ pub fn run(ctx: &Ctx) -> i32 {
     run_workload(ctx, &mut acc, "det-random", n_files, |k, rng, acc| {
         let as_contract = k % 2 == 0;
         let n = if as_contract { 100 } else { 500 };
-        let seqs: Vec<Vec<u16>> = (0..n)
+        let mut seqs: Vec<Vec<u16>> = (0..n)
             .map(|_| {
-                let len = rng.range(4, 12);
+                let len = if rng.chance(1, 4) { rng.range(0, 3) } else { rng.range(4, 12) };
                 let mode = rng.below(3);
                 (0..len)
                     .map(|_| match mode {
@@ -471,6 +471,15 @@ pub fn run(ctx: &Ctx) -> i32 {
                     .collect()
             })
             .collect();
+        // repeat some sequences (and permutations of them) later in the same file
+        for _ in 0..n / 10 {
+            let mut s = seqs[rng.below(seqs.len())].clone();
+            if rng.chance(1, 2) {
+                rng.shuffle(&mut s);
+            }
+            let at = rng.below(seqs.len() + 1);
+            seqs.insert(at, s);
+        }
         check_detector_file(&seqs, as_contract, rng.chance(1, 2), rng, acc);
     });
 
